@@ -203,7 +203,7 @@ class State:
         return State(self.vals, self.facts)
 
     def key(self):
-        return (tuple(sorted((k, _vkey(v)) for k, v in self.vals.items())), tuple(sorted(f.key() for f in self.facts)))
+        return (tuple(sorted(((str(k), _vkey(v)) for k, v in self.vals.items()), key=lambda kv: kv[0])), tuple(sorted((f.key() for f in self.facts), key=str)))
 
     def add(self, con):
         if con not in self.facts:
@@ -393,6 +393,8 @@ def join_vals(cx, key, a, va, b, vb, out_facts):
         return V_struct(va[1], {k: join_vals(cx, (key[0], key[1], "%s.%s" % (key[2], k)), a, fa[k], b, fb.get(k, UNKNOWN), out_facts) for k in fa})
     if va[0] == "bool" and vb[0] == "bool":
         return V_bool([c for c in va[1] if c in vb[1]], [c for c in va[2] if c in vb[2]])
+    if va[0] == "flag" and vb[0] == "flag":
+        return ("flag", va[1] or vb[1])
     return UNKNOWN
 
 
@@ -446,6 +448,76 @@ def unsigned_sym(cx, fn, st, local, bb):
     return V_int(l)
 
 
+def loop_variant(fn, header, succ, index):
+    """locals assigned inside the natural loop(s) of `header`"""
+    key = ("variant", header)
+    cache = getattr(fn, "_hf_variant", None)
+    if cache is None:
+        cache = {}
+        try:
+            object.__setattr__(fn, "_hf_variant", cache)
+        except Exception:
+            pass
+    if key in cache:
+        return cache[key]
+    from .cfg import Cfg
+    cfg = Cfg(fn)
+    body = cfg.natural_loops().get(header, {header})
+    out = set()
+    for b in body:
+        for s in fn.blocks[b]["s"]:
+            if s["k"] == "assign":
+                out.add(s["lhs"][0])
+        t = fn.blocks[b]["t"]
+        if t["k"] == "call":
+            out.add(t["dest"][0])
+    cache[key] = out
+    return out
+
+
+def widen(cx, fn, key, states, variant):
+    """join at a loop header with widening: every loop-variant integer local becomes a phi symbol of
+    this header (and partition), constrained by the templates that hold in every incoming state"""
+    facts = [f for f in states[0].facts if all(entails(s.facts, f) for s in states[1:])]
+    for s in states[1:]:
+        for f in s.facts:
+            if f not in facts and all(entails(x.facts, f) for x in states):
+                facts.append(f)
+    # the phi symbols of this header are about to be redefined: common facts that still mention them
+    # speak about the previous iteration's values
+    own = {sy for (fnm, kk, loc), sy in cx.phi.items() if fnm == fn.name and kk == key}
+    facts = [f for f in facts if not (f.syms() & own)]
+    vals = {}
+    for k, v0 in states[0].vals.items():
+        vs = [s.vals.get(k) for s in states]
+        if any(v is None for v in vs):
+            continue
+        if v0[0] == "int" and k in variant and all(v[0] == "int" for v in vs):
+            pk = (fn.name, key, k)
+            sy = cx.phi.get(pk)
+            if sy is None:
+                sy = cx.fresh("phi_bb%s_%s" % (key, k))
+                cx.phi[pk] = sy
+            phi = Lin.sym(sy)
+            tp = cx.templates(phi)
+            for i in range(len(tp)):
+                if all(entails(s.facts, cx.templates(v[1])[i]) for s, v in zip(states, vs)):
+                    facts.append(tp[i])
+            vals[k] = V_int(phi)
+        else:
+            acc = v0
+            dummy = []
+            for s, v in zip(states[1:], vs[1:]):
+                acc = join_vals(cx, (fn.name, key, k), states[0], acc, s, v, dummy)
+            for d in dummy:
+                if d not in facts:
+                    facts.append(d)
+            if acc != UNKNOWN:
+                vals[k] = acc
+    # facts that mention a phi of this header from the previous round are stale: drop them unless re-derived
+    return State(vals, facts)
+
+
 class Summary:
     def __init__(self):
         self.rets = []          # (state, value of _0)
@@ -456,9 +528,11 @@ class Summary:
 
 
 # --------------------------------------------------------------------------------------------------
-def analyze(cx, fn, args, facts, want_edges=False):
+def analyze(cx, fn, args, facts, want_edges=False, init_vals=None):
     """args: list of abstract values for parameters _1.. ; facts: initial constraints"""
     init = State({i + 1: v for i, v in enumerate(args) if v != UNKNOWN}, facts)
+    if init_vals:
+        init.vals.update(init_vals)
     blocks = fn.blocks
     n = len(blocks)
     # reverse post-order over normal edges
@@ -510,8 +584,23 @@ def analyze(cx, fn, args, facts, want_edges=False):
                     seen_k.add(kk)
                     uniq.append(s_)
             inc = uniq
+            pkey = cx.hooks.get("partition_key")
             if bb in tail and len(inc) <= K:
                 todo = [s_.copy() for s_ in inc]
+            elif pkey is not None:
+                # loop headers / overfull blocks: join only states that agree on the finite partition key
+                groups = {}
+                for s_ in inc:
+                    groups.setdefault(pkey(s_), []).append(s_)
+                todo = []
+                for gk, lst in sorted(groups.items(), key=lambda kv: str(kv[0])):
+                    if bb in headers:
+                        todo.append(widen(cx, fn, "%s#%s" % (bb, gk), lst, loop_variant(fn, bb, succ, index)))
+                    else:
+                        acc = lst[0].copy()
+                        for s_ in lst[1:]:
+                            acc = join(cx, fn.name, "%s#%s" % (bb, gk), acc, s_)
+                        todo.append(acc)
             else:
                 acc = inc[0].copy()
                 for s_ in inc[1:]:
@@ -519,10 +608,15 @@ def analyze(cx, fn, args, facts, want_edges=False):
                 todo = [acc]
             edge_out = []
             blk = blocks[bb]
+            if "block" in cx.hooks:
+                for st in todo:
+                    cx.hooks["block"](cx, fn, bb, st, bb in headers)
             for st in todo:
                 for s in blk["s"]:
                     if s["k"] != "assign":
                         continue
+                    if "stmt" in cx.hooks:
+                        cx.hooks["stmt"](cx, fn, bb, s, st)
                     v = rvalue_val(cx, fn, st, s["rv"], bb)
                     lhs = s["lhs"]
                     if len(lhs) == 1:
@@ -634,7 +728,7 @@ def analyze(cx, fn, args, facts, want_edges=False):
                     edge_out.append((t["resume"], st))
             per = {}
             for tgt, s in edge_out:
-                if tgt in tail:
+                if tgt in tail or cx.hooks.get("partition_key") is not None:
                     per.setdefault(tgt, []).append(s)
                 else:
                     per[tgt] = [s] if tgt not in per else [join(cx, fn.name, tgt, per[tgt][0], s)]
@@ -793,11 +887,33 @@ def _call_val(cx, fn, bb, t, st, reports):
         return V_bool(a[0][2], [])
     if name in ("iter", "iter_mut", "chars") and is_slice_fn:
         l = _sl(a[0]) if a else None
+        if l is None and t["args"] and name != "chars":
+            l = container_len(cx, fn, st, t["args"][0])
         return ("iter", l) if l is not None else UNKNOWN
     if name in ("deref", "deref_mut", "as_ref", "as_mut", "borrow", "borrow_mut", "as_slice", "as_mut_slice", "as_str", "clone", "into_iter", "by_ref", "peekable", "to_vec", "to_owned", "into", "from"):
+        if a and a[0] == UNKNOWN and name in ("deref", "deref_mut", "as_slice", "as_mut_slice", "as_ref", "as_str") and t["args"]:
+            l = container_len(cx, fn, st, t["args"][0])
+            if l is not None:
+                return V_slice(l)
         return a[0] if a else UNKNOWN
+    if name == "enumerate" and a and a[0][0] == "iter":
+        return ("eiter", a[0][1])
+    if name == "next" and a and a[0][0] == "eiter":
+        i_ = sym("enum_i")
+        return V_opt(V_tuple([V_int(i_), UNKNOWN]), [i_, a[0][1].sub(i_).plus(-1)], [])
+    if name == "next" and a and a[0][0] == "iter":
+        return V_opt(UNKNOWN, [a[0][1].plus(-1)], [])
     if name in ("enumerate", "rev", "copied", "cloned", "skip_while") and mod.startswith("core::iter::"):
         return a[0] if a else UNKNOWN
+    if name == "split_off" and len(a) > 1 and a[0][0] == "slice" and a[1][0] == "int":
+        l, at = a[0][1], a[1][1]
+        _oblige(cx, fn, bb, t, st, reports, "O4-split_off", [at, l.sub(at)], "split_off(%s) of a vector of length %s" % (cx.show(at), cx.show(l)))
+        st.add(l.sub(at))
+        _set_len(cx, fn, st, t["args"][0], at)
+        return V_slice(l.sub(at))
+    if name == "truncate" and len(a) > 1 and a[0][0] == "slice" and a[1][0] == "int":
+        _set_len(cx, fn, st, t["args"][0], a[1][1])
+        return UNKNOWN
     if name == "position" and a and a[0][0] == "iter":
         l = a[0][1]
         p_ = sym("pos")
@@ -889,7 +1005,10 @@ def _call_val(cx, fn, bb, t, st, reports):
     if callee is not None and cx.depth < 3 and any(v[0] in ("slice", "int", "struct") for v in a):
         key = (callee.name, tuple(_vkey(v) if v[0] in ("slice", "int") else v[0] for v in a))
         cx.depth += 1
+        marker = cx.n
         sub = analyze(cx, callee, a, list(st.facts))
+        sub.marker = marker
+        sub.ret_ty = callee.local_tystr(0)
         cx.depth -= 1
         reports.extend(sub.reports)
         return summarize(cx, fn, bb, sub, st)
@@ -917,8 +1036,8 @@ def ref_bases(cx, fn):
                     pl = rv["place"]
                     if len(pl) == 1:
                         tgt = m.get(pl[0], pl[0]) if pl[0] in m else pl[0]
-                    elif all(e == "*" for e in pl[1:]) and pl[0] in m:
-                        tgt = m[pl[0]]
+                    elif all(e == "*" for e in pl[1:]):
+                        tgt = m.get(pl[0], pl[0])
                 elif rv["k"] == "use":
                     pl = place_of(rv["op"])
                     if pl and len(pl) == 1 and pl[0] in m:
@@ -935,6 +1054,18 @@ NON_RESIZING = {"deref", "deref_mut", "as_mut_slice", "as_slice", "index", "inde
                 "make_ascii_lowercase", "make_ascii_uppercase", "borrow", "borrow_mut", "contains", "starts_with", "ends_with", "find", "rev"}
 
 
+def _set_len(cx, fn, st, operand, new_len):
+    """a modelled resizing call: every alias of the container now has the new length"""
+    pl = place_of(operand)
+    if not pl:
+        return
+    rb = ref_bases(cx, fn)
+    base = rb.get(pl[0], pl[0])
+    for l in [base] + [k for k, v in rb.items() if v == base]:
+        if st.vals.get(l, UNKNOWN)[0] == "slice" or l == base:
+            st.vals[l] = V_slice(new_len)
+
+
 def container_len(cx, fn, st, operand):
     """length symbol of an owned container local (String / Vec / SmallVec) that is only known through
     references; the symbol is forgotten when the container is handed out mutably to a resizing call"""
@@ -943,9 +1074,26 @@ def container_len(cx, fn, st, operand):
         return None
     base = ref_bases(cx, fn).get(pl[0])
     if base is None:
+        # a shared borrow of a field path (`&self.field`, `&(*self as Variant).0`): immutable for the
+        # duration of the call, so one symbol per path
+        for b in fn.blocks:
+            for s in b["s"]:
+                if s["k"] == "assign" and s["lhs"] == [pl[0]] and s["rv"]["k"] == "ref" and not s["rv"]["mut"] and len(s["rv"]["place"]) > 1:
+                    root = s["rv"]["place"][0]
+                    rt = fn.local_ty(root)
+                    if rt["k"] == "ref" and not rt["mut"]:
+                        key = (fn.name, "clen", str(s["rv"]["place"]))
+                        s_ = cx.callsym.get(key)
+                        if s_ is None:
+                            path = ".".join(str(e[2] if isinstance(e, list) and e[0] in ("f", "dc") else "") for e in s["rv"]["place"][1:] if e != "*")
+                            s_ = cx.fresh("len(%s%s)" % (fn.debug_names().get(root, "_%d" % root), path))
+                            cx.callsym[key] = s_
+                        l = Lin.sym(s_)
+                        st.add(l)
+                        return l
         return None
     ts = fn.local_tystr(base)
-    if not any(x in ts for x in ("String", "Vec<", "SmallVec<")) or ts.startswith("&"):
+    if not any(x in ts for x in ("String", "Vec<", "SmallVec<")) or ts.startswith("&mut"):
         return None
     key = (fn.name, "clen", base)
     s_ = cx.callsym.get(key)
@@ -991,13 +1139,22 @@ def summarize(cx, fn, bb, sub, st):
     """fold a callee's return sites into one value for the caller, using templates"""
     if not sub.rets:
         return UNKNOWN
-    r = call_sym(cx, fn, bb, "ret")
+    unsigned_ret = any(u in (getattr(sub, "ret_ty", "") or "") for u in ("usize", "u8", "u16", "u32", "u64"))
     kinds = {v[0] for _, v in sub.rets}
+    marker = getattr(sub, "marker", None)
+    if kinds == {"int"} and marker is not None:
+        lins = {v[1].key() for _, v in sub.rets}
+        v0 = sub.rets[0][1][1]
+        if len(lins) == 1 and all(sy <= marker for sy in v0.syms()):
+            return V_int(v0)         # the callee returns one affine form over the caller's symbols: exact
+    r = call_sym(cx, fn, bb, "ret")
     if kinds == {"int"}:
         tr = cx.templates(r)
         for i in range(len(tr)):
             if all(entails(s.facts, cx.templates(v[1])[i]) for s, v in sub.rets):
                 st.add(tr[i])
+        if unsigned_ret:
+            st.add(r)
         return V_int(r)
     if kinds == {"opt"} or kinds == {"opt", "unknown"} and False:
         def some_sites():
@@ -1017,6 +1174,8 @@ def summarize(cx, fn, bb, sub, st):
             for i in range(len(tr)):
                 if all(entails(f, cx.templates(v[1][1])[i]) for _, v, f in sites):
                     some.append(tr[i])
+            if unsigned_ret and r not in some:
+                some.append(r)
             payload = V_int(r)
         elif sites and all(v[1][0] == "struct" for _, v, _ in sites):
             # e.g. Option<FoundToken{next_index}>
